@@ -318,6 +318,8 @@ def check_wrapper_dataflow(run, ctx, rule='C01-W1'):
     n = 0
     for (w, sites, res) in wrapper_scenarios(ctx):
         if w.body is None or not sites or len(sites.get('get', [])) != 1 or len(sites.get('body', [])) != 1:
+            run.bad(rule, _fx_key(w, 'shape'), 'generated wrapper of %s does not have exactly one lookup and one body invocation on the selected branch (get=%d body=%d): the key / value '
+                    'dataflow cannot be judged' % (w.path, len((sites or {}).get('get', [])), len((sites or {}).get('body', []))), site=w.path)
             continue
         ex = w.ex
         body = w.body
@@ -613,6 +615,8 @@ def check_key_builder(run, ctx):
     n = 0
     for (w, sites, res) in wrapper_scenarios(ctx):
         if w.body is None or not sites or len(sites.get('get', [])) != 1:
+            run.bad('C02-W1', _fx_key(w, 'shape'), 'generated wrapper of %s does not have exactly one lookup on the selected branch (get=%d): its key cannot be judged'
+                    % (w.path, len((sites or {}).get('get', []))), site=w.path)
             continue
         n += 1
         gb, gt = sites['get'][0]
